@@ -36,7 +36,10 @@ func TestC09(t *testing.T) {
 				cfg.Listener = "full"
 			default:
 				n := u.N()
-				sp := &core.SubSpec{Kind: "rec", S: rapid.IntRange(0, 63).Draw(rt, "ls") | 2}
+				sp := &core.SubSpec{Kind: "rec", S: rapid.IntRange(1, 63).Draw(rt, "ls")}
+				if rapid.Bool().Draw(rt, "lsRemoved") {
+					sp.S |= 2 // event.EntityRemoved
+				}
 				if rapid.Bool().Draw(rt, "lc") {
 					sp.HasC = true
 					perm := rapid.Permutation(seqInts(n)).Draw(rt, "lcomps")
